@@ -397,3 +397,27 @@ fn c36_two_files_one_prop_each_any_two_classified_types() {
         }
     }
 }
+
+// -z x86-64-vN with TWO inputs that both carry ISA_1_NEEDED: OR of both words and the CLI bits
+#[kani::proof]
+#[kani::unwind(5)]
+fn c36_isa_needed_from_command_line_two_files() {
+    let isa: u32 = kani::any();
+    kani::assume(isa != 0);
+    let d0: u32 = kani::any();
+    let d1: u32 = kani::any();
+    let mut v0 = Vec::with_capacity(1);
+    v0.push(GnuProperty { ptype: 0xc0008002, data: d0 });
+    let mut v1 = Vec::with_capacity(1);
+    v1.push(GnuProperty { ptype: 0xc0008002, data: d1 });
+    let states = [
+        ObjectLayoutStateExt { gnu_property_notes: v0, _p: core::marker::PhantomData },
+        ObjectLayoutStateExt { gnu_property_notes: v1, _p: core::marker::PhantomData },
+    ];
+    let out = match merge_gnu_property_notes(states.iter(), NonZeroU32::new(isa)) {
+        Ok(o) => o,
+        Err(_) => { assert!(false, "ISA_1_NEEDED must merge"); return; }
+    };
+    assert!(out.len() == 1 && out[0].ptype == 0xc0008002, "ISA_1_NEEDED missing or duplicated");
+    assert!(out[0].data == d0 | d1 | isa, "-z x86-64-vN bits not ORed into the merged ISA_1_NEEDED");
+}
